@@ -409,6 +409,18 @@ func cmdCheck(args []string) int {
 	if len(samples) == 0 {
 		cov["samples"] = []interface{}{"(none)"}
 	}
+	if *tier == "thorough" && violations == 0 {
+		if st := runSelftest(*root, *repo, *prop, spec.Units); st != nil {
+			cov["selftest"] = st
+			det := 0
+			for _, r := range st {
+				if r.Detected {
+					det++
+				}
+			}
+			fmt.Printf("selftest: %d of %d seeded changes detected\n", det, len(st))
+		}
+	}
 	ev := Evidence{PropertyID: *prop, Tier: *tier, Seed: seed, Level: "proof", Coverage: cov, Assumptions: sortedKeys(assumptions), WallS: round2(time.Since(t0).Seconds()), Violations: violations}
 	os.MkdirAll(filepath.Join(*root, "evidence"), 0o755)
 	data, _ := json.MarshalIndent(ev, "", " ")
